@@ -233,12 +233,48 @@ func c14DepthGraph(r *Run, rel, entryName, label string) {
 			}
 			ci, _ := depthParam(declOf[cal])
 			incr := false
-			if ci >= 0 && ci < len(c.Args) && dp != nil {
-				if be, ok := ast.Unparen(c.Args[ci]).(*ast.BinaryExpr); ok && be.Op == token.ADD {
+			isIncr := func(e ast.Expr) bool {
+				if be, ok := ast.Unparen(e).(*ast.BinaryExpr); ok && be.Op == token.ADD {
 					if id, ok := ast.Unparen(be.X).(*ast.Ident); ok && id.Name == dp.Name {
 						if tv, ok := info.Types[be.Y]; ok && tv.Value != nil && tv.Value.String() != "0" && !strings.HasPrefix(tv.Value.String(), "-") {
-							incr = true
+							return true
 						}
+					}
+				}
+				return false
+			}
+			if ci >= 0 && ci < len(c.Args) && dp != nil {
+				if isIncr(c.Args[ci]) {
+					incr = true
+				} else if id, ok := ast.Unparen(c.Args[ci]).(*ast.Ident); ok && id.Name != dp.Name {
+					// a local that starts as depth and is stepped to depth+1 for the nested case
+					// (valueDepth := depth; if nested { valueDepth = depth + 1 }): every assignment is
+					// depth or depth+k, at least one of them depth+k
+					obj := info.Uses[id]
+					n, stepped, clean := 0, false, true
+					ast.Inspect(fd.Body, func(m ast.Node) bool {
+						as, ok := m.(*ast.AssignStmt)
+						if !ok || len(as.Lhs) != len(as.Rhs) {
+							return true
+						}
+						for i, l := range as.Lhs {
+							lid, ok := l.(*ast.Ident)
+							if !ok || (info.Defs[lid] != obj && info.Uses[lid] != obj) {
+								continue
+							}
+							n++
+							switch {
+							case isIncr(as.Rhs[i]):
+								stepped = true
+							case exprStr(as.Rhs[i]) == dp.Name:
+							default:
+								clean = false
+							}
+						}
+						return true
+					})
+					if n > 0 && stepped && clean {
+						incr = true
 					}
 				}
 			}
